@@ -361,6 +361,19 @@ Theorem processed_key_written_is_the_key_read :
   G.processed_key_read = "<proof>.GetTX().Hash().Bytes()"%string.
 Proof. split; reflexivity. Qed.
 
+(** 20. T: the compass upload's follow-up decides between "first deployment on this chain" (the
+    current snapshot is listed on the chain and the contract is the active compass at once -- the
+    effects an update_valset / a handover otherwise need their own transactions for) and "upgrade"
+    (deployment waits, handover scheduled) by GetLatestSnapshotOnChain = ErrNotFound, and that walk
+    looks at EVERY stored snapshot -- as the model's [live_on] (Corr/C07.v) has it.  A bounded walk,
+    an early exit, another mapping of the error: unknown shape. *)
+Theorem upload_follow_up_decision_as_modelled :
+  G.latest_snapshot_on_chain_walk =
+    "every stored snapshot, from the last id down to 1; found => that snapshot; none => ErrNotFound"%string /\
+  G.upload_first_deployment_decision =
+    "ErrNotFound => current snapshot listed on the chain, contract active; found => handover scheduled"%string.
+Proof. split; reflexivity. Qed.
+
 (** 7. T — over the argument lists extracted from eth_txable.go: every action-bearing field is
     packed, and equal expected calls mean the same call. *)
 Theorem packed_covers_action_fields : forall k f, In f (required k) -> In f (packed_of k).
@@ -413,3 +426,4 @@ Print Assumptions every_attester_runs_all_guards.
 Print Assumptions user_deployment_success_lands_on_own_record.
 Print Assumptions own_record_clause_refuted_when_keyed_by_update_height.
 Print Assumptions processed_key_written_is_the_key_read.
+Print Assumptions upload_follow_up_decision_as_modelled.
